@@ -59,7 +59,7 @@ prop(
     rule=("pass 1 inventories every MPC chunk (gate, sender, receiver, shard, chunk#, length) of an honest malicious-mode hybrid query; "
           "each fault run replays the same deterministic execution with one chunk of one sender altered (flip bit 0, flip last bit, xor 0xFF "
           "on a seeded byte, zero the chunk, +1 on the first 8 bytes); quick = one fault per (step family, corrupt helper) for 1 shard "
-          "(padding on and off) plus a quarter of them for 2 shards; thorough = every inventoried chunk x 3 patterns (1 shard), 30 % "
+          "(padding on and off) plus a quarter of them for 2 shards; thorough = every inventoried chunk x 2 patterns (1 shard), 30 % "
           "sample (2 shards); a case is distinct by (step family, sender, receiver, pattern) and non-trivial when the fault actually "
           "changed bytes of a live chunk and the outcome was classified (abort on an honest helper / accepted with the untampered value / "
           "accepted with a different value = violation)"),
